@@ -67,7 +67,8 @@ Inductive ostep := St (e : ev) (o : list ot) | Sb (e : ev) (o : list ot).
 Inductive case :=
 | Scn (names : list name) (cache : option (list (name * (N * N * N)))) (sv0 : list (name * (N * N)))
       (now_s : N) (allow : bool) (age_ns : N) (init_out : list ot) (steps : list ostep)
-| Cad (i t0 : N) (ticks : list N).
+| Cad (i t0 : N) (ticks : list N)
+| Cad2 (i t0 : N) (polls : list (N * N)).   (* observed (start, end) instants of consecutive polls *)
 
 Definition mk_cache (l : list (name * (N * N * N))) : @smap name (rentry N) :=
   fold_left (fun acc '(n, (v, b, t)) => upd n (Some (Some (v, b), Z.of_N t)) acc) l [].
@@ -113,4 +114,5 @@ Definition check (c : case) : bool :=
     let '(w, o) := construct names (option_map mk_cache cache) (mk_server sv0) (Z.of_N now_s) allow (Z.of_N age) in
     list_beq out_beq o io && steps_ok w steps
   | Cad i t0 ticks => cadence_ok (Z.of_N i) (Z.of_N t0) (map Z.of_N ticks)
+  | Cad2 i t0 polls => cadence2_ok (Z.of_N i) (Z.of_N t0) (map (fun '(a, b) => (Z.of_N a, Z.of_N b)) polls)
   end.
